@@ -1,4 +1,7 @@
 import OutlineModel.Proofs.IP
+import OutlineModel.Proofs.UDP
+import OutlineModel.Model.Dial
+import OutlineModel.Gen.Wiring
 /-
 C05 — The proxy never sends traffic to non-public destinations (address-policy part).
 
@@ -50,6 +53,73 @@ theorem private_status (ip : IP) :
     requirePublicIP Gen.privateNets ip = .priv ↔ (isGlobalUnicast ip = true ∧ isPrivate Gen.privateNets ip = true) := by
   unfold requirePublicIP
   cases isGlobalUnicast ip <;> cases isPrivate Gen.privateNets ip <;> simp
+
+/-- **tcp_only_validated_connects**: whatever the resolver answers (one address, several, mixed
+    families, zoned literals that do not parse) and whichever attempts succeed, every address that
+    gets a `connect` passed the validator. -/
+theorem tcp_only_validated_connects (validate : List UInt8 → Verdict) (connects : List UInt8 → Bool) :
+    ∀ (cands : List (Option (List UInt8))) (ip : List UInt8),
+      ip ∈ (Dial.dialSerial validate connects cands).1 → validate ip = .ok := by
+  intro cands
+  induction cands with
+  | nil => intro ip h; simp [Dial.dialSerial] at h
+  | cons c rest ih =>
+    intro ip h
+    unfold Dial.dialSerial at h
+    by_cases hc : Dial.control validate c = .ok
+    · rw [if_pos hc] at h
+      cases c with
+      | none => exact ih ip h
+      | some a =>
+        simp only at h
+        by_cases hcn : connects a = true
+        · rw [if_pos hcn] at h
+          simp at h; subst h; exact hc
+        · rw [if_neg hcn] at h
+          simp only [List.mem_cons] at h
+          rcases h with rfl | h
+          · exact hc
+          · exact ih ip h
+    · rw [if_neg hc] at h; exact ih ip h
+
+theorem tcp_happy_eyeballs_validated (validate : List UInt8 → Verdict) (connects : List UInt8 → Bool)
+    (p f : List (Option (List UInt8))) (ip : List UInt8) (h : ip ∈ Dial.dialParallel validate connects p f) :
+    validate ip = .ok := by
+  unfold Dial.dialParallel at h
+  rcases List.mem_append.1 h with h | h
+  · exact tcp_only_validated_connects validate connects p ip h
+  · exact tcp_only_validated_connects validate connects f ip h
+
+/-- with the default policy: no TCP `connect` to a forbidden IPv4 destination, however it was named -/
+theorem tcp_default_policy_v4 (connects : List UInt8 → Bool) (cands : List (Option (List UInt8))) (a b c d : UInt8)
+    (h : [a, b, c, d] ∈ (Dial.dialSerial (requirePublicIP Gen.privateNets) connects cands).1) :
+    ¬ Forbidden4 a.toNat b.toNat c.toNat d.toNat :=
+  (v4_iff a b c d).1 (tcp_only_validated_connects _ connects cands _ h)
+
+/-- **udp_every_datagram_validated**: every datagram the UDP handler writes to a target — the first of
+    an association or any later one — goes to an address for which the validator answered ok
+    (restated from C03.forward_implies_auth for the policy). -/
+theorem udp_every_datagram_validated (dnsPort : Nat) (ki : UDP.KeyInfo) (validate : List UInt8 → Verdict)
+    (resolve : Socks.Target → UDP.Resolved) (st : UDP.State) (client : String) (cip : Option Nat) (wire : Nat)
+    (opens : List Nat) (plain : List UInt8) (sock : Nat) (ip : List UInt8) (port : Nat) (payload : List UInt8)
+    (h : UDP.Eff.send sock ip port payload ∈ (UDP.upstream dnsPort ki validate resolve st client cip wire opens plain).2) :
+    validate ip = .ok := by
+  rcases UDP.upstream_cases validate resolve dnsPort ki st client cip wire opens plain with
+    ⟨_, _, hr⟩ | ⟨_, l', s, _, hr⟩ | ⟨_, l', e, pl, ip', port', _, _, hv, hr⟩ | ⟨a, _, _, pl, ip', port', hv, hr⟩ |
+    ⟨a, _, _, s, _, _, hr⟩ | ⟨a, _, _, hr⟩
+  all_goals (rw [hr] at h; simp at h)
+  · obtain ⟨_, rfl, _, _⟩ := h
+    exact (UDP.validatePacket_ok validate resolve plain _ _ _ hv).choose_spec.2.2
+  · obtain ⟨_, rfl, _, _⟩ := h
+    exact (UDP.validatePacket_ok validate resolve plain _ _ _ hv).choose_spec.2.2
+
+/-- **wiring**: the source has the shapes these theorems are about (regenerated facts): the default
+    TCP dialer validates every dialled IP with RequirePublicIP in its Control hook; the packet
+    handler installs RequirePublicIP, validates on both branches, unconditionally, and writes to the
+    validated address. -/
+theorem wiring : Gen.Wiring.tcpDefaultDialerRequiresPublicIP = true ∧ Gen.Wiring.tcpControlValidatesEveryDialledIP = true ∧
+    Gen.Wiring.udpDefaultValidatorRequiresPublicIP = true ∧ Gen.Wiring.udpValidatesBothBranches = true ∧
+    Gen.Wiring.udpValidatorUnconditional = true ∧ Gen.Wiring.udpWritesToValidatedAddress = true := by decide
 
 /- non-vacuity: concrete addresses on both sides of several block boundaries -/
 example : requirePublicIP Gen.privateNets [100, 64, 0, 1] = .priv := by decide
